@@ -136,11 +136,12 @@ MANIFEST = dict(
          'model only outputs allowed reflections inside the shell and inside its segment region (all metrics, unbounded); for all of Z^3 and every setting the Laue images '
          'of the cones cover every non-zero hkl (generated lia proofs); the traversal is complete whenever sin(theta)/lambda does not decrease along the loop directions, '
          'which is proved for every conforming orthorhombic, tetragonal, cubic and hexagonal-axes metric, so that there the model of genhkl_all lists every allowed '
-         'reflection of the shell (given a Laue-invariant metric and reflection conditions). The model is tied to genhkl_all by evaluation in Coq on every run. '
+         'reflection of the shell, each exactly once (NoDup); with the real sysabs and shells inside the box [-7,7]^3 the list is characterised by operator extinction '
+         'without further hypotheses (extinction constant on Laue orbits of representatives: kernel computation). The model is tied to genhkl_all by evaluation in Coq on every run. '
          'Where the monotonicity fails (oblique triclinic/monoclinic, rhombohedral setting) the implementation does miss reflections: known finding F6.',
     design_ref='DESIGN.md section 5 C05 and section 10',
     note='Trusted: Coq kernel, vm_compute, T2/T3 translators and the generated lia proofs (checked by the kernel), the hand traversal model (correspondence). '
-         'Partial: box -> Z^3 lift of the reflection conditions and their Laue invariance are hypotheses of the end-to-end theorem; no-duplicates by search.',
+         'Partial: beyond the box [-7,7]^3 the agreement of sysabs with operator extinction and its Laue invariance are hypotheses of the end-to-end theorem.',
     technique='Coq: vm_compute (finite box x all tables) + induction on the fuelled traversal model + generated lia proofs over Z^3 (covering, one per family) '
               '+ correspondence by in-Coq evaluation; brute-force search',
 )
